@@ -401,7 +401,7 @@ pub fn sum_msg(w: &mut World, m: &validator::ConsensusMsg) -> Value {
         v2::ChonkyMsg::ReplicaTimeout(t) => json!({"timeout": w.sum_tvote(t)}),
         v2::ChonkyMsg::ReplicaNewView(nv) => json!({"newview": w.sum_just(&nv.justification)}),
         v2::ChonkyMsg::LeaderProposal(p) => json!({"proposal": {
-            "payload": p.proposal_payload.as_ref().map(|p| w.hash_id(&p.hash())),
+            "payload": p.proposal_payload.as_ref().map(|p| w.payload_id(p)),
             "just": w.sum_just(&p.justification)}}),
     }
 }
